@@ -326,6 +326,11 @@ func (fr *Frame) staticCall(st *State, fn *ssa.Function, binds []Term, args []Te
 	vc := fr.vc
 	key := funcKey(fn)
 	c := vc.contractFor(key)
+	if c == nil {
+		if handled, err := fr.mapsBuiltin(st, fn, args, in, setResults); handled {
+			return err
+		}
+	}
 	if c != nil && !c.Inline && len(binds) == 0 {
 		var recvT types.Type
 		if fn.Signature.Recv() != nil {
@@ -363,6 +368,109 @@ func (fr *Frame) staticCall(st *State, fn *ssa.Function, binds []Term, args []Te
 	}
 	setResults(rs)
 	return nil
+}
+
+// mapsBuiltin: exact models of maps.Clone and maps.Copy (their bodies live in the runtime).
+// Clone: nil for nil, otherwise a new map object with the same keys and the same values (a shallow
+// copy: values that are themselves references are shared). Copy: every entry of src is put into dst.
+func (fr *Frame) mapsBuiltin(st *State, fn *ssa.Function, args []Term, in ssa.Instruction, setResults func([]Term)) (bool, error) {
+	vc := fr.vc
+	org := fn
+	if o := fn.Origin(); o != nil {
+		org = o
+	}
+	if org.Pkg != nil && org.Pkg.Pkg.Path() == "slices" && org.Name() == "Clone" && len(args) == 1 && fn.Signature.Params().Len() == 1 {
+		// slices.Clone(s) = append(s[:0:0], s...): nil for nil (and for an empty slice a zero-capacity
+		// slice), otherwise a fresh backing array holding a copy of the elements (shallow)
+		pt := fn.Signature.Params().At(0).Type()
+		sl, ok := U(pt).(*types.Slice)
+		if !ok {
+			if c := coreOf(pt); c != nil {
+				sl, ok = U(c).(*types.Slice)
+			}
+		}
+		if !ok {
+			return false, nil
+		}
+		s0 := args[0]
+		if s0.Sort != SSlice {
+			return false, nil
+		}
+		base := vc.allocObject(st, nil)
+		vc.copyRange(st, sl.Elem(), base, SBase(s0), SLen(s0))
+		cp := vc.Fresh("clonecap", SInt)
+		st.assume(And(Ge(cp, SLen(s0)), Lt(cp, IntLitBig(pow2(62)))))
+		res := vc.Define("sliceclone", Ite(Eq(SLen(s0), IntLit(0)), MkSlice(MkRef(IntLit(0), IntLit(0)), IntLit(0), IntLit(0)), MkSlice(base, SLen(s0), cp)))
+		setResults([]Term{res})
+		return true, nil
+	}
+	if org.Pkg == nil || org.Pkg.Pkg.Path() != "maps" || (org.Name() != "Clone" && org.Name() != "Copy") {
+		return false, nil
+	}
+	mapOf := func(i int) (*types.Map, bool) {
+		if i >= fn.Signature.Params().Len() {
+			return nil, false
+		}
+		mt, ok := U(fn.Signature.Params().At(i).Type()).(*types.Map)
+		return mt, ok
+	}
+	switch org.Name() {
+	case "Clone":
+		mt, ok := mapOf(0)
+		if !ok || len(args) != 1 {
+			return false, nil
+		}
+		ks, err1 := vc.tt.SortOf(mt.Key())
+		vs, err2 := vc.tt.SortOf(mt.Elem())
+		if err1 != nil || err2 != nil {
+			return false, nil
+		}
+		m := args[0]
+		r := vc.allocObject(st, nil)
+		domH := vc.mapHeap(st, "dom", ks, vs)
+		valH := vc.mapHeap(st, "val", ks, vs)
+		lenH := vc.mapHeap(st, "len", "", "")
+		vc.setMapHeap(st, "dom", ks, vs, Store(domH, Rid(r), Select(domH, Rid(m))))
+		vc.setMapHeap(st, "val", ks, vs, Store(valH, Rid(r), Select(valH, Rid(m))))
+		vc.setMapHeap(st, "len", "", "", Store(lenH, Rid(r), Select(lenH, Rid(m))))
+		res := vc.Define("mapclone", Ite(Eq(Rid(m), IntLit(0)), m, r))
+		setResults([]Term{res})
+		return true, nil
+	case "Copy":
+		dt, ok1 := mapOf(0)
+		_, ok2 := mapOf(1)
+		if !ok1 || !ok2 || len(args) != 2 {
+			return false, nil
+		}
+		ks, err1 := vc.tt.SortOf(dt.Key())
+		vs, err2 := vc.tt.SortOf(dt.Elem())
+		if err1 != nil || err2 != nil {
+			return false, nil
+		}
+		dst, src := args[0], args[1]
+		domH := vc.mapHeap(st, "dom", ks, vs)
+		valH := vc.mapHeap(st, "val", ks, vs)
+		lenH := vc.mapHeap(st, "len", "", "")
+		srcDom, srcVal := Select(domH, Rid(src)), Select(valH, Rid(src))
+		dstDom, dstVal := Select(domH, Rid(dst)), Select(valH, Rid(dst))
+		// writing into a nil map panics as soon as src has an entry
+		fr.safe(st, "nilmap", Or(Neq(Rid(dst), IntLit(0)), Eq(Select(lenH, Rid(src)), IntLit(0)), Eq(Rid(src), IntLit(0))), in, "maps.Copy into a nil map")
+		kq := Term{"q!k", ks}
+		nd := Term{fmt.Sprintf("(lambda ((q!k %s)) (or (select %s q!k) (select %s q!k)))", ks, dstDom.S, srcDom.S), SArray(ks, SBool)}
+		nv := Term{fmt.Sprintf("(lambda ((q!k %s)) (ite (select %s q!k) (select %s q!k) (select %s q!k)))", ks, srcDom.S, srcVal.S, dstVal.S), SArray(ks, vs)}
+		_ = kq
+		newDom := vc.Define("mapcopydom", nd)
+		newVal := vc.Define("mapcopyval", nv)
+		nl := vc.Fresh("mapcopylen", SInt)
+		st.assume(And(Ge(nl, Select(lenH, Rid(dst))), Ge(nl, Select(lenH, Rid(src)))))
+		live := Neq(Rid(src), IntLit(0))
+		vc.setMapHeap(st, "dom", ks, vs, Ite(live, Store(domH, Rid(dst), newDom), domH))
+		vc.setMapHeap(st, "val", ks, vs, Ite(live, Store(valH, Rid(dst), newVal), valH))
+		vc.setMapHeap(st, "len", "", "", Ite(live, Store(lenH, Rid(dst), nl), lenH))
+		setResults(nil)
+		return true, nil
+	}
+	return false, nil
 }
 
 // callSiteChecks emits the call-site assertions of the enclosing contract.
